@@ -975,6 +975,10 @@ def _minimize(generation_result, algorithm=None):
                             test_suite_minimizer.removed_test_cases,
                         )
 
+            # Drop the test cases that minimization emptied before checking the coverage,
+            # so that the check sees the test suite that is actually kept.
+            generation_result.accept(pp.EmptyTestCaseRemover())
+
             minimized_coverages = [
                 generation_result.get_coverage_for(fitness_function)
                 for fitness_function in fitness_functions
@@ -995,6 +999,8 @@ def _minimize(generation_result, algorithm=None):
                     for fitness_function in fitness_functions
                 ]
                 _LOGGER.info("Coverage after restoration: %s", restored_coverages)
+                # Keep the unminimized test suite exactly as it was.
+                return
 
         else:
             unused_primitives_removal = pp.TestCasePostProcessor([unused_vars_minimizer])
